@@ -30,11 +30,14 @@ fn rand_string(rng: &mut Rng, kind: u64) -> String {
 }
 
 fn rand_time(rng: &mut Rng) -> DateTime<Utc> {
-    match rng.below(5) {
+    match rng.below(8) {
         0 => Utc.timestamp_nanos(0),
         1 => Utc.timestamp_nanos(i64::MAX),
         2 => Utc.timestamp_nanos(i64::MIN + 1),
         3 => Utc.timestamp_nanos(1_136_214_245_000_000_000 + rng.below(1_000_000_000) as i64),
+        // outside the i64 nanosecond range (1677-09-21 .. 2262-04-11): `timestamp_nanos_opt()` is `None`
+        5 => Utc.with_ymd_and_hms(2263 + rng.below(500) as i32, 1 + rng.below(12) as u32, 1, 0, 0, rng.below(60) as u32).unwrap(),
+        6 => Utc.with_ymd_and_hms(1000 + rng.below(600) as i32, 1 + rng.below(12) as u32, 1, 0, 0, 0).unwrap(),
         _ => Utc.timestamp_nanos(rng.u64() as i64 >> rng.below(20)),
     }
 }
@@ -60,7 +63,16 @@ fn rand_cert(rng: &mut Rng) -> Certificate {
     let signers: Vec<StakeDistributionParty> = (0..nsign)
         .map(|_| StakeDistributionParty { party_id: rand_string(rng, 99), stake: if rng.bool() { rng.below(1 << 40) } else { rng.u64() } })
         .collect();
-    let phi = match rng.below(6) { 0 => 0.2, 1 => 0.65, 2 => 1.0, 3 => 0.0, 4 => 255.99999997, _ => (rng.u64() >> 11) as f64 / (1u64 << 53) as f64 };
+    let phi = match rng.below(11) {
+        0 => 0.2, 1 => 0.65, 2 => 1.0, 3 => 0.0, 4 => 255.99999997,
+        // values U8F24 cannot hold (wrapped by the production profile), and non-finite ones (panic everywhere)
+        5 => 256.0 * rng.range(1, 3) as f64 + [0.0, 0.2, 0.65][rng.below(3) as usize],
+        6 => -[1e-10, 0.3, 255.8, 1e300][rng.below(4) as usize],
+        7 => [255.99999999, 1e300, f64::INFINITY, f64::NAN, -0.0, f64::from_bits(1)][rng.below(6) as usize],
+        // exact ties of the rounding to 24 fractional bits (to even)
+        8 => (rng.below(1 << 24) as f64 + 0.5) / (1u64 << 24) as f64,
+        _ => (rng.u64() >> 11) as f64 / (1u64 << 53) as f64,
+    };
     c.metadata = CertificateMetadata {
         network: rand_string(rng, 99),
         protocol_version: rand_string(rng, 4),
@@ -104,13 +116,16 @@ fn int(v: i64) -> String {
     if v < 0 { format!("n{}", (v as i128).unsigned_abs()) } else { v.to_string() }
 }
 
+/// nanoseconds as the line protocol carries them; the fall-back for unrepresentable dates is the MODEL's business
+fn nanos(t: &DateTime<Utc>) -> String { t.timestamp_nanos_opt().map(int).unwrap_or("oor".into()) }
+
 fn req_line(c: &Certificate) -> String {
     let m = &c.metadata;
     format!(
         "c04.cert prev={} epoch={} net={} ver={} k={} m={} phi={:016x} init={} sealed={} signers=[{}] pm=[{}] signed={} avk={} entity={} sig={}",
         hex(c.previous_hash.as_bytes()), c.epoch.0, hex(m.network.as_bytes()), hex(m.protocol_version.as_bytes()),
         m.protocol_parameters.k, m.protocol_parameters.m, m.protocol_parameters.phi_f.to_bits(),
-        int(m.initiated_at.timestamp_nanos_opt().unwrap_or_default()), int(m.sealed_at.timestamp_nanos_opt().unwrap_or_default()),
+        nanos(&m.initiated_at), nanos(&m.sealed_at),
         m.signers.iter().map(|s| format!("({},{})", hex(s.party_id.as_bytes()), s.stake)).collect::<Vec<_>>().join(","),
         c.protocol_message.message_parts.iter().map(|(k, v)| format!("({},{})", hex(k.to_string().as_bytes()), hex(v.as_bytes()))).collect::<Vec<_>>().join(","),
         hex(c.signed_message.as_bytes()), hex(c.aggregate_verification_key.to_json_hex().unwrap().as_bytes()), entity_line(c),
@@ -157,6 +172,24 @@ fn main() {
         sink.witness("C04-entity-variant", a.try_compute_hash().unwrap() == b.try_compute_hash().unwrap(), "CardanoDatabase(10,100) vs CardanoTransactions(10,100)");
     }
 
+    // repaired finding `C04-phi-wrap`: outside debug builds the conversion of phi_f wrapped (256.2 hashed as 0.2)
+    {
+        let h = |phi: f64| catch(move || ProtocolParameters { k: 5, m: 100, phi_f: phi }.compute_hash()).ok();
+        let (a, b) = (h(0.2), h(256.2));
+        sink.witness("C04-phi-wrap", a.is_some() && a == b, "ProtocolParameters(5,100,0.2) and (5,100,256.2) have the same hash (and are `==`)");
+    }
+    {
+        let mut lost = 0;
+        for k in [3_645_000u64, 1, 77, 16_000_001] {
+            let phi = (k as f64 + 0.5) / (1u64 << 24) as f64;
+            let p = ProtocolParameters { k: 5, m: 100, phi_f: phi };
+            let back: ProtocolParameters = serde_json::from_str(&serde_json::to_string(&p).unwrap()).unwrap();
+            if back.compute_hash() != p.compute_hash() { lost += 1; }
+        }
+        sink.witness("C04-phi-tie-wire", lost > 0, &format!("{} of 4 protocol parameters with phi_f on a U8F24 rounding tie change their hash through JSON", lost));
+    }
+    let mut oor_collisions = 0u64;
+
     for _ in 0..n {
         if !sink.wanted() { sink.skip(); continue; }
         let c = rand_cert(&mut rng);
@@ -198,8 +231,26 @@ fn main() {
                 sink.sfail(i, "tamper", &format!("changing only `{}` leaves the certificate hash unchanged", name), &req);
             }
         }
-        // phi_f at protocol precision: a change below 2^-25 may keep the hash, a change of 2^-20 must not
+        // phi_f shifted by the modulus of U8F24: must change the hash (class of the repaired finding `C04-phi-wrap`)
         {
+            let p = c.metadata.protocol_parameters.phi_f;
+            if p.is_finite() && p.abs() < 1024.0 {
+                let mut v = c.clone();
+                v.metadata.protocol_parameters.phi_f = p + 256.0;
+                let b3 = base.clone();
+                if catch(move || v.try_compute_hash().map(|h| h == b3).unwrap_or(false)).unwrap_or(false) {
+                    sink.sfail(i, "phi-wrap", "changing phi_f by 256 leaves the hash unchanged", &req);
+                }
+            }
+        }
+        // dates outside the nanosecond range all hash as 0 (outside the property's quantifier: counted, not judged)
+        if c.metadata.initiated_at.timestamp_nanos_opt().is_none() {
+            let mut v = c.clone();
+            v.metadata.initiated_at = c.metadata.initiated_at + chrono::TimeDelta::days(366);
+            if v.try_compute_hash().map(|h| h == base).unwrap_or(false) { oor_collisions += 1; }
+        }
+        // phi_f at protocol precision: a change below 2^-25 may keep the hash, a change of 2^-20 must not
+        if c.metadata.protocol_parameters.phi_f.is_finite() && c.metadata.protocol_parameters.phi_f.abs() < 256.0 {
             let mut v = c.clone();
             let p = c.metadata.protocol_parameters.phi_f;
             v.metadata.protocol_parameters.phi_f = if p < 128.0 { p + 1.0 / 1048576.0 } else { p - 1.0 / 1048576.0 };
@@ -235,6 +286,8 @@ fn main() {
         // ---- S: wire round trip ----------------------------------------------------------
         let mut cc = c.clone();
         cc.hash = base.clone();
+        // (a non-finite phi_f has no JSON form — serde_json writes `null` —: never an honest value, not judged here)
+        if !c.metadata.protocol_parameters.phi_f.is_finite() { continue; }
         if let Ok(msg) = CertificateMessage::try_from(cc.clone()) {
             let text = serde_json::to_string(&msg).unwrap();
             let val: serde_json::Value = serde_json::from_str(&text).unwrap();
@@ -243,7 +296,11 @@ fn main() {
                 Ok(back) => {
                     let h2 = back.try_compute_hash().unwrap_or_default();
                     if h2 != base || back.signed_message != cc.signed_message || back.hash != cc.hash {
-                        sink.sfail(i, "wire", &format!("hash after JSON round trip differs: {} vs {}", h2, base), &req);
+                        // serde_json without `float_roundtrip` re-read ~10% of the doubles one ulp off: on an exact rounding tie of
+                        // U8F24 the fixed-point value, hence the hash, changed (class of the repaired finding `C04-phi-tie-wire`)
+                        let scaled = c.metadata.protocol_parameters.phi_f * (1u64 << 24) as f64;
+                        let on_tie = (scaled - scaled.floor() - 0.5).abs() < 1e-6;
+                        sink.sfail(i, if on_tie { "wire-phi-tie" } else { "wire" }, &format!("hash after JSON round trip differs: {} vs {}", h2, base), &req);
                     }
                 }
                 Err(e) => {
@@ -253,5 +310,6 @@ fn main() {
             }
         }
     }
+    sink.note("initiated_at_outside_the_nanosecond_range_changed_without_changing_the_hash", &oor_collisions.to_string());
     sink.finish();
 }
